@@ -197,6 +197,8 @@ func c25(r *core.Run) {
 		}
 	}
 	r.Floor("R5.persist", 1)
+	c25LateReads(r)
+	c25ClaimOrder(r)
 }
 
 // operandOrigins: ORIGIN engine as a pinned census — for every call of the selected callees, the data-flow origin leaves of
@@ -259,4 +261,112 @@ func operandOrigins(r *core.Run, rule, table string, sel func(*types.Func) bool,
 			r.Bad(rule, k+": "+s, 0, why+" ("+now+")")
 		}
 	}
+}
+
+// c25LateReads: R6 — the native functions injected into a controller value (delete, retarget) are closures created when a
+// reference to the controller is obtained and invoked later, possibly after the controller was retargeted through the
+// same reference. The controller's mutable state (TargetPath) must be read when the closure runs: a builder that reads
+// it eagerly and lets the closure capture the copy makes a later delete()/retarget() work on the stale target.
+func c25LateReads(r *core.Run) {
+	const rule = "R6.lateread"
+	w := r.W
+	n := 0
+	for _, fn := range w.SrcFuncsIn("stdlib") {
+		if fn.Parent() != nil || len(fn.AnonFuncs) == 0 {
+			continue
+		}
+		// builders: return a function value
+		res := fn.Signature.Results()
+		if res.Len() != 1 {
+			continue
+		}
+		if _, isFunc := res.At(0).Type().Underlying().(*types.Signature); !isFunc {
+			continue
+		}
+		inner := 0
+		for _, a := range core.WithAnon(fn) {
+			core.Instrs(a, false, func(in ssa.Instruction) {
+				fa, ok := in.(*ssa.FieldAddr)
+				if !ok {
+					return
+				}
+				tn, f := structFieldOf(fa)
+				if tn != "StorageCapabilityControllerValue" || f != "TargetPath" {
+					return
+				}
+				// only reads
+				isRead := false
+				if refs := fa.Referrers(); refs != nil {
+					for _, ref := range *refs {
+						if u, ok := ref.(*ssa.UnOp); ok && u.X == ssa.Value(fa) {
+							isRead = true
+						}
+					}
+				}
+				if !isRead {
+					return
+				}
+				if a == fn {
+					n++
+					r.Bad(rule, core.SSAKey(fn)+": eager read of TargetPath", fa.Pos(), "the builder of an injected controller function reads the controller's target path when the closure is created, not when it runs: after retarget() through the same reference, delete()/retarget() act on the stale path")
+				} else {
+					inner++
+				}
+			})
+		}
+		if inner > 0 {
+			n++
+			r.OK(rule, core.SSAKey(fn)+": TargetPath read inside the closure", fn.Pos(), "the target path is read when the injected function runs")
+		}
+	}
+	r.Check(n >= 2, rule, "stdlib: builders of injected controller functions reading TargetPath", 0, itoa(n)+" found", "the builders of the injected storage-controller functions were not found")
+	r.Floor(rule, 3)
+}
+
+// c25ClaimOrder: R7 — inbox.claim answers nil to anybody but the intended recipient before it looks at anything else: the
+// recipient comparison must dominate the borrow-type check (whose failure aborts and prints the published type) and the
+// removal of the published value.
+func c25ClaimOrder(r *core.Run) {
+	const rule = "R7.claimorder"
+	fn := mustFn(r, rule, "stdlib", "", "AccountInboxClaim")
+	if fn == nil {
+		return
+	}
+	var recip ssa.Instruction
+	for _, c := range core.Calls(fn, false) {
+		if o := core.Callee(c); o != nil && o.Name() == "Equal" {
+			ops := c.Common().Args
+			if c.Common().IsInvoke() {
+				ops = append([]ssa.Value{c.Common().Value}, ops...)
+			}
+			for _, a := range ops {
+				if strings.Contains(core.OriginLeaves(a), ".Recipient") {
+					recip = c.(ssa.Instruction)
+				}
+			}
+		}
+	}
+	if recip == nil {
+		r.Bad(rule, "stdlib.AccountInboxClaim: recipient comparison", fn.Pos(), "the comparison of the caller with the published value's recipient was removed")
+		r.Floor(rule, 1)
+		return
+	}
+	n := 0
+	for _, ps := range core.Panics(fn, false) {
+		if _, tn := core.TypeName(ps.Type); tn != "ForceCastTypeMismatchError" {
+			continue
+		}
+		n++
+		r.Check(recip.Block().Dominates(ps.Instr.Block()) && recip.Block() != ps.Instr.Block(), rule, "stdlib.AccountInboxClaim: recipient test before the borrow-type failure", ps.Instr.Pos(),
+			"the type mismatch is only reported to the intended recipient", "the borrow-type check can fail before the caller was compared with the intended recipient: a non-recipient gets an abort that reveals the published type instead of nil")
+	}
+	for _, c := range core.Calls(fn, false) {
+		if o := core.Callee(c); o != nil && (o.Name() == "Transfer" || o.Name() == "WriteStored") {
+			n++
+			in := c.(ssa.Instruction)
+			r.Check(recip.Block().Dominates(in.Block()) && recip.Block() != in.Block(), rule, "stdlib.AccountInboxClaim: recipient test before "+o.Name(), c.Pos(),
+				"only reached by the intended recipient", "the published value is taken before the caller was compared with the intended recipient")
+		}
+	}
+	r.Floor(rule, 2)
 }
